@@ -196,7 +196,9 @@ def corr_evalH(run, cases, rotors, preps, poison=0.0):
     h = helpers()
     b = Batch(run, "evaluate-Horner")
     for (L, P, s, eM, f) in cases:
-        w = spherical.Wigner(L, mp_max=P)
+        # the calculator's own ell_min (anything up to |s| is accepted by evaluate) must not matter: same model line
+        emin = 0 if (len(b.lines) // max(len(rotors), 1)) % 2 == 0 else min(abs(s), L)
+        w = spherical.Wigner(L, emin, mp_max=P)
         modes = spherical.Modes(np.array(f, dtype=complex), spin_weight=s, ell_min=0, ell_max=eM)
         fa = modes.ndarray
         for lab, R in rotors:
